@@ -346,6 +346,8 @@ void j_asin_acc(Ctx & c, int64_t x, int64_t, int64_t)
     if(v < lo || v > hi) c.violation(std::string("asin/") + (ax <= 39321 ? "series" : "sqrt") + "-branch/" + alg + "/beyond-backward-forward-bound", (int)ci, x, 0, 0, i2s(a.v), "[" + ld2s(lo * 65536) + "," + ld2s(hi * 65536) + "]");
     if(an.v != -a.v) c.violation("asin/not-odd", (int)ci, x, 0, 0, i2s(an.v), i2s(-a.v));
     if(model_isnan(b.v) || sabs(b.v - (PHI2 - a.v)) > 1) c.violation("acos/differs-from-pi/2-asin", (int)ci, x, 0, 0, i2s(b.v), i2s(PHI2 - a.v) + "+-1");
+    // "hence within 1 ulp of [0, pi]": pi = 205887.4 raw
+    if(!model_isnan(b.v) && (b.v < -1 || b.v > 205888)) c.violation("acos/outside-[0,pi]-by-more-than-1ulp", (int)ci, x, 0, 0, i2s(b.v), "[-1, 205888]");
     }
   }
 void j_asin_mono(Ctx & c, int64_t x, int64_t y, int64_t)
